@@ -384,3 +384,10 @@ def mon_db_frame(session, ev, name, before, out_i, crash_i):
     for i in set(lb) | set(la):
         if i != d and lb.get(i, []) != la.get(i, []):
             add(session, 'C13', 'frame_other_dbs', '%r on db %d changed db %d' % (ev[2], d, i))
+
+
+def mon_error_nochange_scripts(session, ev, name, before, out_i, crash_i):
+    """C08 for everything except EVAL/EVALSHA themselves (a script may have changed data before it failed)"""
+    if name in ('eval', 'evalsha'):
+        return
+    mon_error_nochange(session, ev, name, before, out_i, crash_i)
